@@ -5,12 +5,19 @@ mod common;
 mod consts;
 mod consts_more;
 mod c04;
+mod c17;
 
 use common::*;
 use std::path::PathBuf;
 
 fn main() {
     let args: Vec<String> = std::env::args().collect();
+    // panics inside the implementation are caught per case and reported through the oracle; keep stderr quiet
+    std::panic::set_hook(Box::new(|info| {
+        if std::env::var("WVH_VERBOSE_PANIC").is_ok() {
+            eprintln!("{info}");
+        }
+    }));
     if args.len() < 2 {
         eprintln!("usage: wvh dump-consts | run <Cxx> --seed S --tier quick|thorough --out DIR");
         std::process::exit(2);
@@ -49,6 +56,7 @@ fn main() {
             let mut ctx = Ctx { seed, thorough, out: Out::new(&out), rng: Rng::new(seed), corpus };
             match prop.as_str() {
                 "C04" => c04::run(&mut ctx),
+                "C17" => c17::run(&mut ctx),
                 _ => {
                     eprintln!("unknown property {prop}");
                     std::process::exit(2);
